@@ -1144,7 +1144,8 @@ class DAG(nx.DiGraph):
         if isinstance(self, BayesianNetwork):
             bn = self
         else:
-            bn = BayesianNetwork(self.edges())
+            bn = BayesianNetwork(self.edges(), latents=set(self.latents))
+            bn.add_nodes_from(self.nodes())
 
         if estimator is None:
             estimator = MaximumLikelihoodEstimator
